@@ -67,7 +67,12 @@ func bloomCached(ctx context.Context, bs Blockstore, bloomSize, hashCount int) (
 }
 
 type bloomcache struct {
-	active atomic.Bool
+	// active is the filter whose negative answers may be trusted; nil until a
+	// complete enumeration has populated it. Readers consult the filter they
+	// load from here, never b.bloom, so that a concurrent Rebuild (which
+	// deactivates and swaps in an empty filter) cannot pair a stale "active"
+	// observation with the new, still incomplete filter.
+	active atomic.Pointer[bloom.Bloom]
 
 	// bloom is the live filter. It is swapped atomically by Rebuild, so all
 	// accesses go through Load.
@@ -97,7 +102,7 @@ var (
 )
 
 func (b *bloomcache) BloomActive() bool {
-	return b.active.Load()
+	return b.active.Load() != nil
 }
 
 func (b *bloomcache) Wait(ctx context.Context) error {
@@ -120,11 +125,12 @@ func (b *bloomcache) build(ctx context.Context) error {
 	b.buildMu.Lock()
 	defer b.buildMu.Unlock()
 
-	if err := b.populate(ctx, b.bloom.Load()); err != nil {
+	target := b.bloom.Load()
+	if err := b.populate(ctx, target); err != nil {
 		b.buildErr = err
 		return err
 	}
-	b.active.Store(true)
+	b.active.Store(target)
 	return nil
 }
 
@@ -168,13 +174,13 @@ func (b *bloomcache) Rebuild(ctx context.Context) error {
 	// instead leave a block written concurrently with a rebuild as a transient
 	// false negative until the next rebuild: the bloom-pointer atomic orders
 	// only the filter swap, not datastore visibility.
-	b.active.Store(false)
+	b.active.Store(nil)
 	b.bloom.Store(fresh)
 
 	if err := b.populate(ctx, fresh); err != nil {
 		return err
 	}
-	b.active.Store(true)
+	b.active.Store(fresh)
 	return nil
 }
 
@@ -231,8 +237,8 @@ func (b *bloomcache) hasCached(k cid.Cid) (has bool, ok bool) {
 		// in case of invalid key is forwarded deeper
 		return false, false
 	}
-	if b.BloomActive() {
-		blr := b.bloom.Load().HasTS(k.Hash())
+	if f := b.active.Load(); f != nil {
+		blr := f.HasTS(k.Hash())
 		if !blr { // not contained in bloom is only conclusive answer bloom gives
 			b.hits.Inc()
 			return false, true
